@@ -29,6 +29,70 @@ def run(fx, rep, tier):
     rule_consume(fx, rep, ex)
     rule_accept(fx, rep)
     rule_name(fx, rep)
+    rule_table(fx, rep)
+
+
+def rule_table(fx, rep):
+    """`Hash` may be 0, so the table may have no slots while every one of its operations is still called - by the search, and
+    by the `setoption` / `ucinewgame` handlers on the input thread (reset, resize), which no search cone contains. The panic
+    sites in the cone of the table's own methods are therefore discharged here with the C04 machinery (an index needs its
+    non-empty guard, a chunk / window size must be a positive constant, a division needs a non-zero divisor): seed C13-6a
+    cleared the table in `len.div_ceil(4)`-sized chunks, which is a chunk size of 0 for the empty table."""
+    import core
+    import pC04
+    roots = [b.name for b in fx.fn_bodies() if norm(b.name).startswith("engine::transposition_table::TranspositionTable::") and b.kind == "AssocFn" and "::tests::" not in b.name]
+    if not roots:
+        rep.rule("C13-TABLE", 0, 0, True, "table methods not found: not decided")
+        return
+    def c_range_index(site, fx):
+        # v[i] for i drawn from 0..v.len()
+        if not (site.family == "index" and len(site.ops) == 2):
+            return False
+        base = deep_strip(site.ops[0])
+        while isinstance(base, tuple) and base and base[0] in ("ref", "deref"):
+            base = deep_strip(base[1])
+        rng = [x for x in walk(site.ops[1]) if isinstance(x, tuple) and x and x[0] == "agg" and str(x[1]).endswith("Range::Range") and len(x[2]) == 2]
+        if len(rng) != 1 or deep_strip(rng[0][2][0]) != ("const", 0):
+            return False
+        hi = deep_strip(rng[0][2][1])
+        if not (isinstance(hi, tuple) and hi and hi[0] == "call" and str(hi[1]).split("::")[-1] == "len" and hi[2]):
+            return False
+        y = deep_strip(hi[2][0])
+        while isinstance(y, tuple) and y and y[0] in ("ref", "deref"):
+            y = deep_strip(y[1])
+        ix = deep_strip(site.ops[1])
+        direct = isinstance(ix, tuple) and ix and ix[0] == "field" and ix[2] == "0" and bool(find_calls(ix, "::next"))
+        return show(y) == show(base) and direct
+
+    def c_size_arith(site, fx):
+        return site.family == "arith" and site.what == "Mul" and C.in_fn(site, "transposition_table::calculate_number_of_entries")
+
+    def c_entry_size(site, fx):
+        if not (site.family == "divzero" and C.in_fn(site, "transposition_table::calculate_number_of_entries")):
+            return False
+        blk = site.body.blocks[site.bb]
+        for st in reversed(blk["stmts"]):
+            rv = st.get("rv")
+            if rv and rv["k"] == "binop" and rv["op"] == "Eq":
+                return bool(find_calls(site.body.expr(rv["a"], expand_named=True, at=site.bb), "mem::size_of"))
+        return False
+    import classes as C
+    extra = [("range-index", c_range_index, "v[i] with i drawn from 0..v.len()", "checked"),
+             ("table-size-arith", c_size_arith, "size_mb * 1024 * 1024: overflow-free up to the advertised maximum (C13-RANGE/hash-overflow)", "checked"),
+             ("entry-size", c_entry_size, "division by size_of::<entry>(), which holds a 64-bit key", "belief")]
+    sub = type(rep)(rep.prop, rep.tier)
+    q = core.QUIET
+    core.QUIET = True
+    try:
+        pC04.run_cone(fx, sub, "C13-TABLE", roots, pC04.exempt_roots(fx), 5, extra_classes=extra)
+    finally:
+        core.QUIET = q
+    for v in sub.violations:
+        rep.violation("C13-TABLE", v["key"], v["msg"] + " - the table may be empty (Hash 0), and reset / resize run on the input thread", v["site"])
+    rep.obligations += sub.obligations
+    rep.discharged += sub.discharged
+    r = sub.rules[-1]
+    rep.rule("C13-TABLE", r["instances"], 5, not sub.violations, "panic sites of the table's own methods (shared with C04-CONE)")
 
 
 STR_OPS = {
@@ -83,7 +147,7 @@ def rule_name(fx, rep):
     n = 0
     sites = 0
     for b in fx.fn_bodies():
-        if "::tests::" in b.name:
+        if "::tests::" in b.name or " as std::clone::Clone>" in b.name or " as core::clone::Clone>" in b.name:
             continue
         for bb, j, st in b.stmts():
             rv = st.get("rv")
@@ -440,6 +504,8 @@ U = "src/engine/uci/mod.rs"
 O = "src/engine/uci/options.rs"
 TTF = "src/engine/transposition_table.rs"
 MUTANTS = [
+    {"name": "table cleared in len.div_ceil(4)-sized chunks: chunk size 0 for the empty table (seed C13-6a)", "expect": "C13-TABLE",
+     "edits": [(TTF, "        for i in 0..self.data.len() {\n            self.data[i] = None;\n        }\n\n        self.generation = 0;", "        let block_size = self.data.len().div_ceil(4);\n        for block in self.data.chunks_mut(block_size) {\n            block.fill(None);\n        }\n\n        self.generation = 0;")]},
     {"name": "Hash value equal to the configured one is not applied (seed C13-5a)", "expect": "C13-RANGE/hash-resize/skipped",
      "edits": [(O, "    pub fn set(options: &mut EngineOptions, value: &str) -> Result<usize, String> {\n        let hash_size = value.parse::<usize>().map_err(|_| \"Invalid value\")?;\n", "    pub fn set(options: &mut EngineOptions, value: &str) -> Result<Option<usize>, String> {\n        let hash_size = value.parse::<usize>().map_err(|_| \"Invalid value\")?;\n        if hash_size == options.hash_size {\n            return Ok(None);\n        }\n"),
                (O, "        options.hash_size = hash_size;\n        Ok(hash_size)", "        options.hash_size = hash_size;\n        Ok(Some(hash_size))"),
